@@ -108,7 +108,7 @@ def run(ctx):
     rep.functions = ["encoder::gen_intermediate_symbols", "encoder::gen_intermediate_symbols_with_plan", "encoder::SourceBlockEncodingPlan::generate",
                      "constraint_matrix::generate_constraint_matrix::<DenseBinaryMatrix|SparseBinaryMatrix>", "pi_solver::IntermediateSymbolDecoder::{new,execute} (all five phases)",
                      "operation_vector::perform_op", "symbol_slab::SymbolSlab::{add_assign,mulassign_scalar,fma,set_reorder}"]
-    rep.bounds = {"Table-2 rows": "every K' <= %d (%d rows) certified for all data; all 477 rows built natively in release (thorough) / a spread of 24 rows (quick)" % (bound, len(kps)),
+    rep.bounds = {"Table-2 rows": "every K' <= %d (%d rows) certified for all data; all 477 rows built natively in release (thorough) / a spread of 24 rows plus the rows whose P, W or L sits on a 64-bit word boundary (quick)" % (bound, len(kps)),
                   "back-ends": "dense (threshold 60000) and sparse (threshold 0) direct solves, plan generated with the default threshold and replayed",
                   "profiles": "debug-assertions+overflow-checks and release", "data": "all source symbols symbolic (8 F_2 variables per byte column)"}
     rep.assumptions = ["the F_2 meaning of AddAssign/MulAssign/FMA/Reorder is tied to the real kernels by C09-C11 (and cross-checked here on tagged data by replaying the program in the checker)",
@@ -125,7 +125,16 @@ def run(ctx):
     rest = [r[0] for r in rfc.TABLE2 if r[0] > bound]
     if not thorough:
         step = max(1, len(rest) // 24)
-        rest = rest[::step][:24] + [56403]
+        spread = rest[::step][:24] + [56403]
+        # the matrices are bit-packed in 64-bit words: add the rows whose dimensions sit on a word boundary
+        edge = []
+        for r in rfc.TABLE2:
+            if r[0] <= bound or r[0] > 30000:
+                continue
+            p = rfc.Params(r[0])
+            if p.P % 64 == 0 or any(v % 64 in (0, 63) for v in (p.W, p.L)) and len(edge) < 14:
+                edge.append(r[0])
+        rest = sorted(set(spread + edge))
     t0 = time.time()
     failed = []
     for kp in rest:
